@@ -10,7 +10,7 @@ META = {
     "decided by z3 nlsat per path (largest-diagonal branches, gimbal branches, identity shortcuts are paths).",
     "assumptions": [
         "angles are identified modulo 2*pi (Angle = point on the unit circle); arcsin/arccos return the principal branch as (sqrt(1-x^2), x)",
-        "paths through np.linalg.eigh/svd (quaternion_from_matrix(isprecise=False), rotation_from_matrix, align_vectors, fix_rigid repair) are outside the encodable fragment",
+        "paths through np.linalg.eigh/svd (quaternion_from_matrix(isprecise=False), align_vectors, fix_rigid repair) are outside the encodable fragment; rotation_from_matrix is checked with np.linalg.eig replaced by its contract (the unit eigenvector for eigenvalue 1 is +-axis), i.e. the claim is about the angle/branch logic around the LAPACK call",
     ],
 }
 
@@ -114,6 +114,65 @@ def u_rotation_matrix(ctx):
     # sense of rotation: for d = z the matrix is the counter-clockwise planar rotation
     Rz = tf.rotation_matrix(th, [0, 0, 1])
     ctx.eq("right-handed about +z", [Rz[0, 0], Rz[0, 1], Rz[1, 0], Rz[1, 1]], [c, -np.sin(th), np.sin(th), c])
+
+
+def _eig_stub(direction, sign):
+    """np.linalg.eig by contract for the two calls rotation_from_matrix makes: the eigenvector for eigenvalue 1 of a rotation's
+    3x3 block is +-(unit axis); of the homogeneous 4x4 (rotation about the origin) the last one reported is (0,0,0,1)"""
+
+    def eig(M):
+        n = np.shape(M)[0]
+        w = np.zeros(n, dtype=object)
+        w[0] = 1
+        W = np.zeros((n, n), dtype=object)
+        if n == 3:
+            for i in range(3):
+                W[i, 0] = sign * direction[i]
+        else:
+            W[3, 0] = 1
+        return nparr.set_sd(nparr.wrap(w), np.float64), nparr.set_sd(nparr.wrap(W), np.float64)
+
+    return eig
+
+
+def u_rotation_from_matrix(ctx):
+    """rotation_matrix(*rotation_from_matrix(R)) = R on every sina-branch (np.linalg.eig stubbed by its contract)"""
+    from trimesh import transformations as tf
+    from symx import core
+
+    th = ctx.angle("th")
+    sign = ctx.params["sign"]
+    mode = ctx.params["plane"]
+    if mode == "z":
+        # general axis: rational unit vectors with d_z != 0 (a fully symbolic unit axis does not decide within 60 s)
+        cat = [(1, 2, 2, 3), (2, -3, 6, 7), (-4, 4, 7, 9), (6, 2, -3, 7)][ctx.params.get("cat", 0)]
+        d = np.array([lib.Fr(v, cat[3]) for v in cat[:3]], dtype=object)
+        d = nparr.set_sd(nparr.wrap(d), np.float64) if ctx.sym else d.astype(float)
+    else:
+        d = ctx.reals("d", 3, -1, 1)
+        ctx.assume(d[0] * d[0] + d[1] * d[1] + d[2] * d[2] == 1) if ctx.sym else None
+        if not ctx.sym:
+            n = np.linalg.norm(d)
+            ctx.assume(n > 1e-3)
+            d = d / n
+    # which sina branch: general axis / axis in the XY plane / axis = +-x (margins keep the float replay on the same branch)
+    if mode == "z":
+        pass
+    elif mode == "xy":
+        ctx.assume(d[2] == 0 if ctx.sym else abs(d[2]) < 1e-12)
+        ctx.assume(abs(d[1]) >= 1e-3)
+    else:
+        ctx.assume((d[2] == 0) & (d[1] == 0) if ctx.sym else (abs(d[2]) < 1e-12 and abs(d[1]) < 1e-12))
+    if not ctx.sym and mode != "z":
+        d = np.array([d[0], d[1] if mode == "xy" else 0.0, 0.0])
+        d = d / np.linalg.norm(d)
+    R = tf.rotation_matrix(th, d)
+    if ctx.sym:
+        core.ENGINE.opts = dict(core.ENGINE.opts)
+        core.ENGINE.opts["stubs"] = {"linalg.eig": _eig_stub(d, sign)}
+    angle, direction, point = tf.rotation_from_matrix(R)
+    R2 = tf.rotation_matrix(angle, direction)
+    ctx.eq("rotation_matrix(*rotation_from_matrix(R)) = R  [axis %s, eigenvector sign %+d]" % (mode, sign), (nparr.base(R2) if ctx.sym else R2)[:3, :3], (nparr.base(R) if ctx.sym else R)[:3, :3])
 
 
 def u_axis_angle_quat(ctx):
@@ -364,6 +423,15 @@ def units(tier):
     ] + [
         Unit("rotation_matrix", u_rotation_matrix, functions=[F + "rotation_matrix", F + "unit_vector"], bounds="all angles, directions 1e-2<=|d|^2, |d_i|<=4, points |p_i|<=10", ob_ms=60000, wall_s=300),
         Unit("axis_angle_vs_quaternion", u_axis_angle_quat, functions=[F + "quaternion_about_axis", F + "rotation_matrix", F + "vector_norm"], bounds="all angles (half-angle parametrised), directions as above", ob_ms=60000, wall_s=300),
+    ] + [
+        Unit("rotation_from_matrix-%s-sign%+d" % (pl, sg), u_rotation_from_matrix, params={"plane": pl, "sign": sg}, key="rotation_from_matrix", functions=[F + "rotation_from_matrix", F + "rotation_matrix"],
+             bounds="all angles; unit axis %s; np.linalg.eig stubbed by contract (unit eigenvector for eigenvalue 1 = %+d * axis)" % ({"z": "with |d_z|>=1e-3", "xy": "in the XY plane, |d_y|>=1e-3", "x": "= +-x"}[pl], sg), ob_ms=60000, wall_s=300)
+        for pl in ("xy", "x") for sg in (1, -1)
+    ] + [
+        Unit("rotation_from_matrix-z-cat%d-sign%+d" % (c, sg), u_rotation_from_matrix, params={"plane": "z", "sign": sg, "cat": c}, key="rotation_from_matrix", functions=[F + "rotation_from_matrix", F + "rotation_matrix"],
+             bounds="all angles; axis %d of the rational unit-vector catalogue (d_z != 0); np.linalg.eig stubbed by contract" % c, subspace="axis catalogue x symbolic angle", ob_ms=60000, wall_s=300)
+        for c in ((0, 1) if tier == "quick" else (0, 1, 2, 3)) for sg in (1, -1)
+    ] + [
         Unit("transform_around_3D", u_transform_around, params={"dim": 3}, functions=[F + "transform_around"], bounds="all affine 4x4 |m|<=10, points |p|<=10"),
         Unit("transform_around_2D", u_transform_around, params={"dim": 2}, functions=[F + "transform_around"], bounds="all affine 3x3"),
         Unit("transform_points_3D", u_transform_points, params={"dim": 3}, functions=[F + "transform_points"], bounds="all affine 4x4 |m|<=100, 2 points |p|<=100; identity shortcut path separate"),
